@@ -14,8 +14,9 @@ _DIR = {}
 def workdir():
     pid = os.getpid()
     if pid not in _DIR:
-        base = "/dev/shm" if os.path.isdir("/dev/shm") and os.access("/dev/shm", os.W_OK) else None
-        d = tempfile.mkdtemp(prefix="rtmc-c17-", dir=base)
+        from ..engine import run_tmp
+
+        d = tempfile.mkdtemp(prefix="c17-", dir=run_tmp())
         _DIR.clear()
         _DIR[pid] = d
         atexit.register(shutil.rmtree, d, True)
